@@ -384,11 +384,17 @@ fn anf<'a>(
             anfenv,
             gensym,
             *value,
-            Box::new(move |ve| AExpr::ALet {
-                name,
-                value: Box::new(ve),
-                body: Box::new(anf(anfenv, gensym, *body, k)),
-                ty: e_ty.clone(),
+            Box::new(move |ve| {
+                // the let now also spans what the continuation builds, so its type is that of the
+                // whole body, not the type of the source `let` expression
+                let body = anf(anfenv, gensym, *body, k);
+                let ty = body.get_ty();
+                AExpr::ALet {
+                    name,
+                    value: Box::new(ve),
+                    body: Box::new(body),
+                    ty,
+                }
             }),
         ),
         LiftExpr::EIf {
